@@ -12,6 +12,11 @@
           (kind=spec), and order-independence / exact-once / reachability are also evaluated on the real
           outputs (kind=oracle).
 
+  Added for the spelling of imports and "processed once": `each_directory_inserted_once` (no key twice),
+  `directories_read_once` (#directories read = #modules), `import_spelling_irrelevant` / `import_detour_irrelevant`
+  / `same_directory_same_module` (`./x`, `x/`, `x/.`, `a//b`, `a/./b`, `n/../x` resolve alike).  Symbolic links are
+  outside the model; the stream checks them on the real file system (oracles `c18-once`, `c18-resolve`).
+
   The command-line loop of `generate_ui` is modelled as `cliRun`; `cli_outputs_order_independent` proves the
   clause for it.  (Finding F15 — the loop stopped at the first rejected source — was repaired in /repo
   73d3cab; the pre-repair loop and its witness are kept as `cliRunFailFast` / `f15_fail_fast_witness`.)
@@ -52,6 +57,50 @@ theorem inheritance_walk_terminates (env : Env) (t : Tree) (look : Path → Opti
 theorem translation_terminates (env : Env) (t : Tree) (look : Path → Option Module) (hs : SoundLook t look)
     (base : Path) (f : File) : ∃ o, translate env t look base f = some o :=
   Option.isSome_iff_exists.1 (translate_isSome hs base f)
+
+/-- **Every directory is processed exactly once.**  The type map never holds a directory twice (keys are canonical
+    paths, so two spellings of a directory — or two directories importing each other — are one entry) … -/
+theorem each_directory_inserted_once (t : Tree) (srcDirs : List Path) (ms : DirMap)
+    (h : populate t srcDirs = some (.ok ms)) : ms.keys.Nodup :=
+  run_keys_nodup _ _ ms (by simp [initState, DirMap.keys]) h
+
+/-- … and the number of directories READ during the whole discovery (iterations of the work-list that do not hit
+    the "already visited" test: one `read_dir` and one pass over the files each) is exactly the number of
+    directory modules in the result — no directory is read twice, however often it is imported. -/
+theorem directories_read_once (t : Tree) (srcDirs : List Path) (ms : DirMap)
+    (h : populate t srcDirs = some (.ok ms)) :
+    readsOf t (fuelBound t srcDirs) (initState srcDirs) = ms.length := by
+  have := run_reads (fuelBound t srcDirs) (initState srcDirs) ms h
+  simpa [initState] using this
+
+/-! ### spelling of a string import -/
+
+/-- **How a directory import is spelled does not matter**: `./x`, `x/`, `x/.`, `a//b`, `a/./b` and a detour
+    `n/..` through an existing directory resolve to the same canonical directory (or fail alike), hence give the
+    same module id in the component's import list and the same entry of the document's module space. -/
+theorem import_spelling_irrelevant (t : Tree) (base : Path) (a b : List String) :
+    resolve t base ("." :: a) = resolve t base a
+    ∧ resolve t base (a ++ [""]) = resolve t base a
+    ∧ resolve t base (a ++ ["."]) = resolve t base a
+    ∧ resolve t base (a ++ "" :: b) = resolve t base (a ++ b)
+    ∧ resolve t base (a ++ "." :: b) = resolve t base (a ++ b) := by
+  have h1 := walk_skip t base "." (.inl rfl) a
+  have h2 := walk_insert t base a [] "" (.inr rfl)
+  have h3 := walk_insert t base a [] "." (.inl rfl)
+  have h4 := walk_insert t base a b "" (.inr rfl)
+  have h5 := walk_insert t base a b "." (.inl rfl)
+  simp only [List.append_nil] at h2 h3
+  simp only [resolve, h1, h2, h3, h4, h5, and_self]
+
+theorem import_detour_irrelevant (t : Tree) (base : Path) (n : String) (rest : List String)
+    (hn : n ≠ "." ∧ n ≠ "" ∧ n ≠ "..") (hd : isDir t (base ++ [n]) = true) :
+    resolve t base (n :: ".." :: rest) = resolve t base rest := by
+  simp only [resolve, walk_down_up t base n rest hn hd]
+
+/-- two spellings that resolve alike are the same import -/
+theorem same_directory_same_module (t : Tree) (base : Path) (s1 s2 : List String)
+    (h : resolve t base s1 = resolve t base s2) : importId t base (.dir s1) = importId t base (.dir s2) := by
+  simp [importId, h]
 
 /-! ### what is discovered -/
 
@@ -426,6 +475,12 @@ example : dirsOf (populate tree [["a"], ["b"], ["a"]]) = some [["a"], ["b"]] := 
 -- `missing/../a` is not a directory although it is lexically `a`
 example : resolve tree ["b"] ["missing", "..", "a"] = none := by decide +kernel
 example : resolve tree ["a"] ["..", "b", "."] = some ["b"] := by decide +kernel
+/-- one directory under six spellings; a cycle of length 2 spelled with `..`: two modules, two reads -/
+example : ([["..", "b"], [".", "..", "b"], ["..", "b", ""], ["..", "", "b"], ["..", "b", "..", "b", "."], ["..", "a", "..", "b", "", ""]].map
+    (resolve tree ["a"])) = List.replicate 6 (some ["b"]) := by decide +kernel
+example : (match populate tree [["a"], ["b"]] with
+    | some (.ok ms) => some (ms.keys, readsOf tree (fuelBound tree [["a"], ["b"]]) (initState [["a"], ["b"]]))
+    | _ => none) = some ([["b"], ["a"]], 2) := by decide +kernel
 
 private def mainOut : Option Output :=
   match findDir tree ["a"] with
